@@ -132,7 +132,8 @@ class Enc:
                 if len(codes) != len(v.args) - 1:
                     raise AnalysisError("layout: struct.pack arity")
                 for ch, a in zip(codes, v.args[1:]):
-                    self.emit(struct.calcsize(order + ch), order + ch, subst_expr(a, loc), "pack", st)
+                    # (single octets have no byte order: 'B' whatever prefix the format carries)
+                    self.emit(struct.calcsize(order + ch), ch if ch in "Bb" else order + ch, subst_expr(a, loc), "pack", st)
                 return None
             if isinstance(v, ast.Call) and canon(v.func) in ("bytearray", "bytes") and len(v.args) == 1:
                 try:
@@ -205,6 +206,33 @@ class Dec:
 
     def ev(self, mod, e):
         return Ev(self.repo, mod, env=dict(self.env), self_cls=self.ci).ev(e)
+
+    def fold_indices(self, mod, e):
+        """index / slice-bound expressions that fold to an integer in this scenario (`hdr[self.CHDR_LEN + 1]`) become
+        literals, so that the positional rules see the octet numbers"""
+        me = self
+
+        class T(ast.NodeTransformer):
+            def visit_Subscript(self_, n):
+                self_.generic_visit(n)
+
+                def k(x):
+                    if x is None or isinstance(x, ast.Constant):
+                        return x
+                    try:
+                        v = me.ev(mod, x)
+                    except (Unknown, Raised, AnalysisError):
+                        return x
+                    if isinstance(v, int) and not isinstance(v, bool):
+                        return ast.copy_location(ast.Constant(value=v), x)
+                    return x
+                if isinstance(n.slice, ast.Slice):
+                    n.slice = ast.Slice(lower=k(n.slice.lower), upper=k(n.slice.upper), step=n.slice.step)
+                else:
+                    n.slice = k(n.slice)
+                return n
+        import copy
+        return T().visit(copy.deepcopy(e))
 
     def run(self, meth="parse_msg"):
         c, m = self.repo.find_method(self.ci, meth)
@@ -332,7 +360,7 @@ class Dec:
             return "ret"
         if isinstance(st, ast.Assign) and len(st.targets) == 1:
             t = st.targets[0]
-            v = subst_expr(st.value, loc)
+            v = self.fold_indices(c.mod, subst_expr(st.value, loc))
             if isinstance(t, ast.Name):
                 loc[t.id] = v
                 return None
